@@ -21,6 +21,13 @@ C20_ACCEPT2 = ([{"scenario": "c20_accept2", "params": {"lproto": lp, "tr": tr, "
                [{"scenario": "c20_accept2", "params": {"lproto": lp, "tr": tr, "nnga": 1}} for lp in (0, 1, 2) for tr in (1, 2)])
 
 
+# C20, scenarios/c20c_keepalive.cc: four requests, two of them with a body, one after the other on ONE keep-alive HTTP/1.1
+# connection to an nng http server whose handlers collect the body (cli 0: raw wire client, 1: nng_http_transact on one nng_http;
+# body 0: the bodies are the text of a request for the other resource, 1: letters without a line end).
+# 28 / 60 allocations per program: every k runs in the quick tier too (round-4 seeded C20_9).
+C20_KEEPALIVE = [{"scenario": "c20_keepalive", "params": {"cli": c, "body": b}} for c in (0, 1) for b in (0, 1)]
+
+
 PLANS = {
     "C02": {
         "level": "exploration",
@@ -108,7 +115,7 @@ PLANS = {
         "budget_s": {"quick": 55, "thorough": 1200},
         "quick_first": 120, "quick_sample": 30,
         "enum_seeds": {"quick": 4, "thorough": 60},
-        "enum_alloc": [{'scenario': 'c20_sp', 'params': {'proto': 0, 'tr': 0}}, {'scenario': 'c20_sp', 'params': {'proto': 0, 'tr': 1}}, {'scenario': 'c20_sp', 'params': {'proto': 0, 'tr': 2}}, {'scenario': 'c20_sp', 'params': {'proto': 0, 'tr': 3}}, {'scenario': 'c20_sp', 'params': {'proto': 1, 'tr': 0}}, {'scenario': 'c20_sp', 'params': {'proto': 1, 'tr': 1}}, {'scenario': 'c20_sp', 'params': {'proto': 1, 'tr': 2}}, {'scenario': 'c20_sp', 'params': {'proto': 1, 'tr': 3}}, {'scenario': 'c20_sp', 'params': {'proto': 2, 'tr': 0}}, {'scenario': 'c20_sp', 'params': {'proto': 2, 'tr': 1}}, {'scenario': 'c20_sp', 'params': {'proto': 2, 'tr': 2}}, {'scenario': 'c20_sp', 'params': {'proto': 2, 'tr': 3}}, {'scenario': 'c20_sp', 'params': {'proto': 3, 'tr': 0}}, {'scenario': 'c20_sp', 'params': {'proto': 3, 'tr': 1}}, {'scenario': 'c20_sp', 'params': {'proto': 3, 'tr': 2}}, {'scenario': 'c20_sp', 'params': {'proto': 3, 'tr': 3}}, {'scenario': 'c20_sp', 'params': {'proto': 4, 'tr': 0}}, {'scenario': 'c20_sp', 'params': {'proto': 4, 'tr': 1}}, {'scenario': 'c20_sp', 'params': {'proto': 4, 'tr': 2}}, {'scenario': 'c20_sp', 'params': {'proto': 4, 'tr': 3}}, {'scenario': 'c20_sp', 'params': {'proto': 5, 'tr': 0}}, {'scenario': 'c20_sp', 'params': {'proto': 5, 'tr': 1}}, {'scenario': 'c20_sp', 'params': {'proto': 5, 'tr': 2}}, {'scenario': 'c20_sp', 'params': {'proto': 5, 'tr': 3}}, {'scenario': 'c20_sp', 'params': {'proto': 6, 'tr': 0}}, {'scenario': 'c20_sp', 'params': {'proto': 6, 'tr': 1}}, {'scenario': 'c20_sp', 'params': {'proto': 6, 'tr': 2}}, {'scenario': 'c20_sp', 'params': {'proto': 6, 'tr': 3}}, {'scenario': 'c20_sp', 'params': {'proto': 0, 'tr': 0, 'longurl': 1}}, {'scenario': 'c20_sp', 'params': {'proto': 1, 'tr': 3, 'longurl': 1}}, {'scenario': 'c20_sp', 'params': {'proto': 1, 'tr': 3, 'wshdr': 1}}, {'scenario': 'c20_sp', 'params': {'proto': 0, 'tr': 3, 'wshdr': 1}}, {'scenario': 'c20_sp', 'params': {'proto': 1, 'tr': 0, 'udp': 1}}, {'scenario': 'c20_sp', 'params': {'proto': 3, 'tr': 0, 'udp': 1}}, {'scenario': 'c20_sp', 'params': {'proto': 0, 'tr': 0, 'udp': 1}}, {'scenario': 'c20_init', 'params': {'no_init': 1, 'cycles': 0}}, {'scenario': 'c20_init', 'params': {'no_init': 1, 'cycles': 2}}, {'scenario': 'c20_init', 'params': {'no_init': 1, 'cycles': 0, 'expires': 3, 'pollers_n': 2}}, {'scenario': 'c20_device', 'params': {}}, {'scenario': 'c20_http', 'params': {'errpage': 0}}, {'scenario': 'c20_http', 'params': {'errpage': 1}}] + C20_ACCEPT2,
+        "enum_alloc": [{'scenario': 'c20_sp', 'params': {'proto': 0, 'tr': 0}}, {'scenario': 'c20_sp', 'params': {'proto': 0, 'tr': 1}}, {'scenario': 'c20_sp', 'params': {'proto': 0, 'tr': 2}}, {'scenario': 'c20_sp', 'params': {'proto': 0, 'tr': 3}}, {'scenario': 'c20_sp', 'params': {'proto': 1, 'tr': 0}}, {'scenario': 'c20_sp', 'params': {'proto': 1, 'tr': 1}}, {'scenario': 'c20_sp', 'params': {'proto': 1, 'tr': 2}}, {'scenario': 'c20_sp', 'params': {'proto': 1, 'tr': 3}}, {'scenario': 'c20_sp', 'params': {'proto': 2, 'tr': 0}}, {'scenario': 'c20_sp', 'params': {'proto': 2, 'tr': 1}}, {'scenario': 'c20_sp', 'params': {'proto': 2, 'tr': 2}}, {'scenario': 'c20_sp', 'params': {'proto': 2, 'tr': 3}}, {'scenario': 'c20_sp', 'params': {'proto': 3, 'tr': 0}}, {'scenario': 'c20_sp', 'params': {'proto': 3, 'tr': 1}}, {'scenario': 'c20_sp', 'params': {'proto': 3, 'tr': 2}}, {'scenario': 'c20_sp', 'params': {'proto': 3, 'tr': 3}}, {'scenario': 'c20_sp', 'params': {'proto': 4, 'tr': 0}}, {'scenario': 'c20_sp', 'params': {'proto': 4, 'tr': 1}}, {'scenario': 'c20_sp', 'params': {'proto': 4, 'tr': 2}}, {'scenario': 'c20_sp', 'params': {'proto': 4, 'tr': 3}}, {'scenario': 'c20_sp', 'params': {'proto': 5, 'tr': 0}}, {'scenario': 'c20_sp', 'params': {'proto': 5, 'tr': 1}}, {'scenario': 'c20_sp', 'params': {'proto': 5, 'tr': 2}}, {'scenario': 'c20_sp', 'params': {'proto': 5, 'tr': 3}}, {'scenario': 'c20_sp', 'params': {'proto': 6, 'tr': 0}}, {'scenario': 'c20_sp', 'params': {'proto': 6, 'tr': 1}}, {'scenario': 'c20_sp', 'params': {'proto': 6, 'tr': 2}}, {'scenario': 'c20_sp', 'params': {'proto': 6, 'tr': 3}}, {'scenario': 'c20_sp', 'params': {'proto': 0, 'tr': 0, 'longurl': 1}}, {'scenario': 'c20_sp', 'params': {'proto': 1, 'tr': 3, 'longurl': 1}}, {'scenario': 'c20_sp', 'params': {'proto': 1, 'tr': 3, 'wshdr': 1}}, {'scenario': 'c20_sp', 'params': {'proto': 0, 'tr': 3, 'wshdr': 1}}, {'scenario': 'c20_sp', 'params': {'proto': 1, 'tr': 0, 'udp': 1}}, {'scenario': 'c20_sp', 'params': {'proto': 3, 'tr': 0, 'udp': 1}}, {'scenario': 'c20_sp', 'params': {'proto': 0, 'tr': 0, 'udp': 1}}, {'scenario': 'c20_init', 'params': {'no_init': 1, 'cycles': 0}}, {'scenario': 'c20_init', 'params': {'no_init': 1, 'cycles': 2}}, {'scenario': 'c20_init', 'params': {'no_init': 1, 'cycles': 0, 'expires': 3, 'pollers_n': 2}}, {'scenario': 'c20_device', 'params': {}}, {'scenario': 'c20_http', 'params': {'errpage': 0}}, {'scenario': 'c20_http', 'params': {'errpage': 1}}] + C20_ACCEPT2 + C20_KEEPALIVE,
         "scenarios": [],
         "assumptions": ["enumeration is exhaustive over k for each (program, seed) but covers one schedule per seed",
                         "the allocator seam is nng_init_params.{malloc,calloc,free}_fn; every nng allocation goes through it"],
